@@ -253,6 +253,26 @@ mod verif_native {
                 }
             }
         }
+        // structured access lists that random draws never produce: repeated keys (adjacent and not), repeated addresses,
+        // empty key lists, all-zero / all-0xff keys and addresses
+        let (a, b) = ([0x11u8; 20], [0u8; 20]);
+        let (k, l, z, f) = ([0xaau8; 32], [0xbbu8; 32], [0u8; 32], [0xffu8; 32]);
+        let shapes: Vec<Vec<([u8; 20], Vec<[u8; 32]>)>> = vec![
+            vec![], vec![(a, vec![])], vec![(a, vec![k])], vec![(a, vec![k, k])], vec![(a, vec![k, k, l])], vec![(a, vec![l, k, k, k])], vec![(a, vec![k, l, k])],
+            vec![(a, vec![k]), (a, vec![k])], vec![(a, vec![]), (a, vec![])], vec![(b, vec![z, z]), (a, vec![f, z, f])], vec![(a, vec![z]), (b, vec![]), (a, vec![z, f])],
+            vec![(a, vec![k; 8])], vec![(a, vec![k, l]); 5],
+        ];
+        for kind in 1..3u8 {
+            for shape in &shapes {
+                let mut t = gen_tx(&mut rng, kind, 3);
+                t.access = shape.clone();
+                let doc = tx_json(&t, &|v| json!(format!("{v:#x}")));
+                let tx: Transaction = serde_json::from_value(doc.clone()).unwrap_or_else(|e| panic!("valid transaction rejected: {e}: {doc}"));
+                assert_eq!(tx.signing_message(), Digest::of(reference_encode(&t, None)), "signing digest of {doc}");
+                assert_eq!(tx.encode(Signature::from_parts(U256::ONE, n_minus_1, 1)), reference_encode(&t, Some((U256::ONE, n_minus_1, 1))), "signed encoding of {doc}");
+                cases += 1;
+            }
+        }
         println!("VERIF-NATIVE-CASES nb_tx_encoding_vs_reference {cases} nontrivial {cases}");
     }
 
